@@ -1,6 +1,7 @@
 """C02 (partial) — on well-posed convex problems every solver stack converges to the minimiser.
 proof: Properties_C02.v — the distance bound  mu |x-x*|^2 <= eps |x-x*|_1 + delta |y-y*|_1  for approximate KKT pairs of strongly convex QPs;
-exploration (carries the liveness half, which is NOT proved): every shipped stack on generated strongly convex QPs with a strictly feasible
+       + LIVENESS of PANOC / ZeroFPR stand-alone (whole-loop models, every direction provider, tolerance factors 0): Converged in < N iterations, N explicit;
+exploration (carries the liveness half for the stacks where it is NOT proved — ALM, PANTR, FISTA, positive tolerance factors —): every shipped stack on generated strongly convex QPs with a strictly feasible
 linear constraint set must return Converged within generous limits and meet the bound against (x*, y*) from an independent active-set solve."""
 import math, itertools
 from fractions import Fraction
@@ -141,7 +142,11 @@ def run(ctx):
     ctx.coverage["rule"] = ("strongly convex QPs (mu = 1, condition number <= 50, n in 1..8, m in 0..5, equality / range / one-sided rows through a strictly feasible point, finite and infinite variable bounds, "
                             "infeasible starting points); every shipped stack with default solver parameters and generous limits (inner max_iter 20000, FISTA 200000, ALM max_iter 200); reference (x*, y*) from an independent "
                             "active-set solve verified by its KKT conditions; distinct = (stack, mode, m>0, degenerate?) signature")
-    ctx.assumptions += ["PARTIAL: the liveness clause ('does return Converged within the limits') is not proved; it is explored on the implementation only",
+    ctx.assumptions += ["PARTIAL: the liveness clause ('does return Converged within the limits') is proved for the whole-loop models of PANOC and ZeroFPR stand-alone over R "
+                        "(every direction provider, QUB / line-search tolerance factors 0, box constraints; Properties_C02.v C02_panoc_* / C02_zerofpr_*); for ALM, PANTR, FISTA and the "
+                        "default positive tolerance factors it is explored on the implementation only",
+                        "liveness-regime runs (panoc / zerofpr inner, m = 0, tolerance factors 0, L_0 = 1, ProjGradNorm, tol 1e-3): the proved iteration bound N is evaluated in binary64 from "
+                        "(phi_gammamin(x0) - psi(x*)) / (beta (1-Lgamma)/(2 gamma0) tol^2) with Lf := ||Q||_F; the bound is a worst-case one (typically >> the observed counts)",
                         "the distance bound is proved for approximate KKT pairs (what Converged certifies by C01); mu is the construction's lower bound of the smallest eigenvalue",
                         "reference solution: Python active-set enumeration + Gaussian elimination in binary64, accepted only if its KKT residuals are < 1e-8"]
     ctx.level = "proof"
@@ -218,5 +223,58 @@ def run(ctx):
         slack = 1e-12 + 1e-9 * rhs + 1e-16 * (1 + sum(t * t for t in xs))
         if lhs > rhs + slack:
             ctx.violation("C02:distance-bound:%s:%s" % (stack, mode), "mu|x-x*|^2 = %r > eps|x-x*|_1 + delta|y-y*|_1 = %r" % (lhs, rhs), dict(info, x_ref=xs, y_ref=ys))
+    # ---------------- liveness regime of C02_panoc_returns_converged / C02_zerofpr_returns_converged on the real solvers
+    # box-constrained members of the family, QUB / line-search tolerance factors 0, L_0 = 1 > 0, criterion ProjGradNorm, tolerance 1e-3:
+    # the theorems (over R) say: Converged after fewer than N iterations, never NoProgress / NotFinite; every direction provider.
+    Lgam, beta, L0, ltol = 0.95, 0.95, 1.0, 1e-3
+    lreqs, lmeta = [], []
+    seen = set()
+    for (k, prob, mu, solver, direction, mode) in meta:
+        if prob.m != 0 or k in seen: continue
+        seen.add(k)
+        x0 = next(rq.x0 for rq, mt in zip(reqs, meta) if mt[0] == k)
+        for solver2 in ("panoc", "zerofpr"):
+            for d in sl.PANOC_DIRS:
+                params = ["solver.max_iter=20000", "solver.max_time=1h", "solver.quadratic_upperbound_tolerance_factor=0",
+                          "solver.linesearch_tolerance_factor=0", "solver.Lipschitz.L_0=1", "xcrit=ProjGradNorm"]
+                lreqs.append(sl.Request(prob, x0, [], [], solver2, d, "inner", params, tol=ltol, rec_limit=0))
+                lmeta.append((k, prob, solver2, d))
+    louts = run_driver(ctx, "solve", "".join(r.to_input() for r in lreqs), timeout=1500) if lreqs else []
+    if louts is None or len(louts) != len(lreqs):
+        ctx.broke("correspondence", "drv_solve", "liveness-regime runs: driver produced %s results for %d runs" % (None if louts is None else len(louts), len(lreqs)))
+        louts = []
+    nmax_seen, ratio_min = 0, None
+    for rq, (k, prob, solver2, d), o in zip(lreqs, lmeta, louts):
+        stack = "%s.%s" % (solver2, d)
+        ctx.count("live:" + stack)
+        info = {"driver": "drv_solve", "input": rq.to_input(), "request": rq.describe(), "impl_output": {a: b for a, b in o.items() if a != "records"}}
+        if "exc" in o:
+            ctx.violation("C02:exception:live:" + stack, "solver threw: " + o["exc"], info); continue
+        n = prob.n
+        Lf = math.sqrt(sum(prob.Q[i][j] ** 2 for i in range(n) for j in range(n)))          # ||Q||_F >= lambda_max(Q): a valid QUB constant
+        gmin = Lgam / max(L0, 2 * Lf); g0 = Lgam / L0
+        gr = prob.grad_f(rq.x0)
+        xh = sl.proj([a - gmin * b for a, b in zip(rq.x0, gr)], prob.Clb, prob.Cub)
+        pstep = [a - b for a, b in zip(xh, rq.x0)]
+        phi0 = prob.f(rq.x0) + sum(t * t for t in pstep) / (2 * gmin) + sum(a * b for a, b in zip(gr, pstep))
+        ref = refs.get(k)
+        st = o["status"]
+        ctx.case("live/%s/%s" % (stack, st))
+        if st in ("NoProgress", "NotFinite", "Interrupted", "MaxTime"):
+            ctx.violation("C02:liveness-regime:%s:%s" % (st, stack), "status %s in the regime where the whole-loop model provably returns Converged (tolerance factors 0, box-constrained convex QP)" % st, info)
+            continue
+        if ref is None: continue
+        psi_inf = prob.f(ref[0]); psi_inf -= 1e-9 * (1 + abs(psi_inf))
+        dec = beta * (1 - Lgam) / (2 * g0) * ltol * ltol
+        N = math.floor((phi0 - psi_inf) / dec) + 1
+        nmax_seen = max(nmax_seen, o["iterations"])
+        r_ = N / max(1, o["iterations"]); ratio_min = r_ if ratio_min is None else min(ratio_min, r_)
+        if st == "Converged" and o["iterations"] >= N:
+            ctx.violation("C02:liveness-bound:" + stack, "Converged after %d iterations but the proved bound is N = %d" % (o["iterations"], N), dict(info, N=N, phi0=phi0, psi_inf=psi_inf))
+        elif st == "MaxIter" and N <= 20000:
+            ctx.violation("C02:liveness-bound:" + stack, "MaxIter at 20000 >= proved bound N = %d" % N, dict(info, N=N, phi0=phi0, psi_inf=psi_inf))
+    ctx.coverage["liveness_regime_runs"] = len(louts)
+    ctx.coverage["liveness_regime_max_iterations_observed"] = nmax_seen
+    ctx.coverage["liveness_regime_min_ratio_N_over_observed"] = ratio_min
     ctx.coverage["problems"] = nprob
     ctx.coverage["references_found"] = sum(1 for v in refs.values() if v is not None)
